@@ -176,10 +176,24 @@ def init_behaviour(protocol, service):
         overlaid = all(d2[k] == v for k, v in arg.items()) and all(
             d2[k] == before[k] for k in before if k not in arg and k != "connid")
         untouched = protocol.DEFAULT_CONFIG == before and arg == arg_before
+        # the copy is a SNAPSHOT: editing the caller's dict or DEFAULT_CONFIG afterwards must not show through
+        snap1 = dict((k, c1._config[k]) for k in before)
+        snap2 = dict((k, c2._config[k]) for k in before)
+        try:
+            arg["allow_all_attrs"] = not arg["allow_all_attrs"]
+            arg["exposed_prefix"] = "edited_"
+            arg["allow_public_attrs"] = not before["allow_public_attrs"]
+            for k in ("allow_public_attrs", "allow_setattr", "allow_delattr", "allow_safe_attrs"):
+                protocol.DEFAULT_CONFIG[k] = not before[k]
+            protocol.DEFAULT_CONFIG["exposed_prefix"] = "changed_"
+            frozen = all(c1._config[k] == snap1[k] for k in before) and all(c2._config[k] == snap2[k] for k in before)
+        finally:
+            protocol.DEFAULT_CONFIG.clear()
+            protocol.DEFAULT_CONFIG.update(before)
     finally:
         c1.close()
         c2.close()
-    return own_copy, equals_defaults, overlaid, untouched
+    return own_copy, equals_defaults, overlaid, untouched, frozen
 
 
 class _WriteRecordingDict(dict):
@@ -286,14 +300,17 @@ def gen_policy():
                for m, t, o, pk, d in sites], 1),
           "/-- handlers that obtain an attribute by calling `self._handle_getattr` (AST) -/",
           "def getattrDelegates : List String := " + lean_list([lean_str(d) for d in delegates], 5)]
-    own_copy, equals_defaults, overlaid, untouched = init_behaviour(protocol, service)
+    own_copy, equals_defaults, overlaid, untouched, frozen = init_behaviour(protocol, service)
     L += ["", "/-- `Connection.__init__`, observed: the connection's `_config` is its own dict (not DEFAULT_CONFIG, not shared),",
           "equals the defaults when no config is given, has the caller's keys overlaid, and neither DEFAULT_CONFIG nor the",
           "caller's dict is modified -/",
           "def initOwnCopy : Bool := %s" % lean_bool(own_copy),
           "def initEqualsDefaults : Bool := %s" % lean_bool(equals_defaults),
           "def initOverlaysArg : Bool := %s" % lean_bool(overlaid),
-          "def initLeavesInputsAlone : Bool := %s" % lean_bool(untouched)]
+          "def initLeavesInputsAlone : Bool := %s" % lean_bool(untouched),
+          "/-- ... and it is a snapshot: after the caller's dict and DEFAULT_CONFIG were edited (then restored), every key",
+          "of both connections' `_config` still reads as it did right after construction -/",
+          "def initSnapshotFrozen : Bool := %s" % lean_bool(frozen)]
     # SlaveService.on_connect
     upd, unchanged = slave_update(protocol, service)
     known = dict(SWITCHES + OTHER_BOOLS)
